@@ -25,7 +25,7 @@ NAMES = {"replace", "replaceAround", "addMark", "removeMark", "addNodeMark", "re
 
 
 def cases(tier):
-    return 500 if tier == "quick" else 25000
+    return 4000 if tier == "quick" else 100000
 
 
 def floors(tier):
